@@ -32,6 +32,13 @@ static ROUTES: Mutex<Vec<Route>> = Mutex::new(Vec::new());
 /// Requests served so far (observability for the evidence).
 pub static SERVED: std::sync::atomic::AtomicU64 =
     std::sync::atomic::AtomicU64::new(0);
+/// Ordinal (in `SERVED` order, starting at 0) of the request whose reply is
+/// lost on the way back: the serving instance processes the request, the
+/// sender sees a failed HTTP exchange. One shot; negative: none.
+pub static LOSE_REPLY_AT: std::sync::atomic::AtomicI64 =
+    std::sync::atomic::AtomicI64::new(-1);
+/// What was served, in order: (ordinal, protocol path).
+pub static SERVED_LOG: Mutex<Vec<(u64, String)>> = Mutex::new(Vec::new());
 /// When set, every routed request fails like an unreachable server.
 pub static UNREACHABLE: std::sync::atomic::AtomicBool =
     std::sync::atomic::AtomicBool::new(false);
@@ -60,6 +67,7 @@ fn serve(uri: &str, body: &[u8]) -> Option<Result<Vec<u8>, String>> {
         return Some(Err("connection refused (harness: server down)".into()))
     }
     let body = Bytes::copy_from_slice(body);
+    let log_path = path.clone();
     let handle = std::thread::spawn(move || -> Result<Vec<u8>, String> {
         if let Some(publisher) = path.strip_prefix("rfc8181/") {
             let publisher = rpki::ca::idexchange::PublisherHandle::from_str(
@@ -78,11 +86,19 @@ fn serve(uri: &str, body: &[u8]) -> Option<Result<Vec<u8>, String>> {
             Err(format!("404 no such protocol path: {path}"))
         }
     });
-    SERVED.fetch_add(1, std::sync::atomic::Ordering::SeqCst);
-    Some(match handle.join() {
+    let ordinal = SERVED.fetch_add(1, std::sync::atomic::Ordering::SeqCst);
+    if let Ok(mut l) = SERVED_LOG.lock() {
+        if l.len() < 10_000 { l.push((ordinal, log_path)); }
+    }
+    let res = match handle.join() {
         Ok(res) => res,
         Err(_) => Err("500 the serving instance panicked".into()),
-    })
+    };
+    if LOSE_REPLY_AT.load(std::sync::atomic::Ordering::SeqCst) == ordinal as i64 {
+        LOSE_REPLY_AT.store(-1, std::sync::atomic::Ordering::SeqCst);
+        return Some(Err("connection reset (harness: reply lost)".into()))
+    }
+    Some(res)
 }
 
 fn install() {
